@@ -35,6 +35,9 @@ let spec_smooth_run cf st0 sts dts = g_spec_smooth qops cf st0 sts dts
 
 let error_run cf est pu prev tp dt rf atol rtol nk = g_error qops cf est pu prev tp dt rf atol rtol nk
 
+let interp_run cf st0 st1 t = g_interp qops cf st0 st1 t
+let spec_union_run cf sc2 f0 nodes sm = g_spec_union qops cf sc2 f0 nodes sm
+
 let show (r : Q.t list option) =
   match r with
   | None -> print_string "0\n"
